@@ -367,7 +367,24 @@ def can_accept_rule(ctx, rid, core):
     nn = H.pat_binds(hcan["params"][1])[0]
     mt = H.final_expr(hcan["body"])
     if H.kind(mt) != "Match":
-        ctx.inst(rid, "can_accept", None, "can_accept is not a single match on the arity class", H.loc(hcan["body"]))
+        # not a single match: specialise the body for each arity class (lib/pe: matches on the known class resolved, helper
+        # methods of the same type looked through, Option combinators on a known Some/None reduced) and read off the bounds on n
+        from lib import pe as PE_
+        ev = PE_.PE(core, CORE + "values::FunctionArity::")
+        N = ("sym", "n")
+        want = {"Exact": ({("incl", ("sym", "f0"))}, {("incl", ("sym", "f0"))}), "AtLeast": ({("incl", ("sym", "f0"))}, set()),
+                "Between": ({("incl", ("sym", "f0"))}, {("incl", ("sym", "f1"))})}
+        self_name = H.pat_binds(hcan["params"][0])[0] if H.pat_binds(hcan["params"][0]) else "self"
+        for v_ in core.types[CORE + "values::FunctionArity"]["variants"]:
+            cls = v_["name"]
+            val = ("variant", cls, tuple(("sym", "f%d" % i) for i in range(len(v_["fields"]))))
+            t = ev.ev(core.hir[CORE + "values::FunctionArity::can_accept"]["body"], {self_name: val, nn: N})
+            iv = PE_.interval(t, N)
+            if cls not in want or PE_.has_unk(t) or iv is None:
+                ok = None
+            else:
+                ok = (iv is not False) and iv == want[cls]
+            ctx.inst(rid, "can_accept[%s]" % cls, ok, "specialised for %s(..): accepts iff %s" % (cls, (t,)), H.loc(hcan["body"]))
         return
     for aa in mt["arms"]:
         cls = "|".join(H.last(v) for v in H.pat_variants(aa["pat"]))
